@@ -255,7 +255,7 @@ def run_annotate(ctx, path, raw, label):
         ctx.case(case, nontrivial=b_ > a, kind="join")
         try:
             out = clr.pixels(join=True)[a:b_]
-            cid = lambda x: chromnames.index(x) if x in chromnames else int(x)   # files without an enum header join the stored integer ids
+            cid = lambda x: chromnames.index(x)   # names for both encodings (D31: integer-coded files used to join raw ids; fixed b7d1ac2)
             got = [[int(i), cid(r.chrom1), int(r.start1), int(r.end1), cid(r.chrom2), int(r.start2), int(r.end2), int(r.count)]
                    for i, r in zip(out.index.tolist(), out.itertuples(index=False))]
         except Exception as e:
@@ -277,6 +277,141 @@ def run_annotate(ctx, path, raw, label):
             ok = False
         if not ok:
             ctx.fail(case, {"detail": "single id column annotation wrong"}, None)
+
+
+def _raw_tables(path):
+    import h5py
+    with h5py.File(path, "r") as f:
+        names = [x.decode() for x in f["chroms/name"][:]]
+        return {"names": names, "chrom": [int(c) for c in f["bins/chrom"][:].tolist()], "start": f["bins/start"][:].tolist(),
+                "end": f["bins/end"][:].tolist(), "bin1_id": f["pixels/bin1_id"][:].tolist(), "bin2_id": f["pixels/bin2_id"][:].tolist(),
+                "count": f["pixels/count"][:].tolist(), "weight": f["bins/weight"][:].tolist() if "weight" in f["bins"] else None}
+
+
+def _read_all(clr, reads):
+    """every table read of the claim on one Cooler object, chromosome names as strings"""
+    import cooler
+    out = {}
+    nb = clr.info["nbins"]
+    for a, b_ in reads:
+        t = clr.bins()[a:b_]
+        out[f"bins[{a}:{b_}]"] = [t.index.tolist(), [str(x) for x in t["chrom"].tolist()], t["start"].tolist(), t["end"].tolist()]
+        out[f"bins['chrom'][{a}:{b_}]"] = [str(x) for x in clr.bins()["chrom"][a:b_].tolist()]
+    j = clr.pixels(join=True)[:]
+    out["join"] = [[str(r.chrom1), int(r.start1), int(r.end1), str(r.chrom2), int(r.start2), int(r.end2), int(r.count)] for r in j.itertuples(index=False)]
+    px = clr.pixels()[:]
+    for nm, barg in (("annotate(selector)", clr.bins()), ("annotate(frame)", clr.bins()[:]), ("annotate(partial)", clr.bins()[: nb])):
+        an = cooler.annotate(px, barg)
+        out[nm] = [[str(r.chrom1), int(r.start1), int(r.end1), str(r.chrom2), int(r.start2), int(r.end2), int(r.count)] for r in an.itertuples(index=False)]
+    out["chroms"] = [[str(x) for x in clr.chroms()[:]["name"].tolist()], clr.chroms()[:]["length"].tolist()]
+    if "weight" in clr.bins().columns:
+        out["weight"] = [None if np.isnan(v) else float(v) for v in clr.bins()["weight"][:].tolist()]
+    return out
+
+
+def _expect_all(raw, reads):
+    nb = len(raw["start"])
+    nm = lambda k: raw["names"][raw["chrom"][k]]
+    out = {}
+    for a, b_ in reads:
+        lo_, hi_, _ = slice(a, b_).indices(nb)
+        hi_ = max(hi_, lo_)
+        ks = list(range(lo_, hi_))
+        out[f"bins[{a}:{b_}]"] = [ks, [nm(k) for k in ks], [raw["start"][k] for k in ks], [raw["end"][k] for k in ks]]
+        out[f"bins['chrom'][{a}:{b_}]"] = [nm(k) for k in ks]
+    rows = [[nm(i), raw["start"][i], raw["end"][i], nm(j), raw["start"][j], raw["end"][j], c] for i, j, c in zip(raw["bin1_id"], raw["bin2_id"], raw["count"])]
+    out["join"] = rows
+    for k in ("annotate(selector)", "annotate(frame)", "annotate(partial)"):
+        out[k] = rows
+    return out
+
+
+def run_history(ctx):
+    """table reads depend on what the file holds NOW, not on what was read from the same path earlier in the process"""
+    import cooler
+    rng = ctx.rng
+    path = str(ctx.tmp / "hist.cool")
+
+    def make(names, nper, seed):
+        rows = []
+        for cname, k in zip(names, nper):
+            rows += [(cname, 10 * t, 10 * t + 10) for t in range(k)]
+        bins = pd.DataFrame(rows, columns=["chrom", "start", "end"])
+        n = len(bins)
+        r = np.random.RandomState(seed)
+        pix = [(i, j, int(r.randint(1, 9))) for i in range(n) for j in range(i, n) if r.rand() < 0.5] or [(0, n - 1, 2)]
+        if os.path.exists(path):
+            os.unlink(path)
+        cooler.create_cooler(path, bins, pd.DataFrame(pix, columns=["bin1_id", "bin2_id", "count"]), dtypes={"count": np.int64})
+
+    def check(step, history, clr, fresh=True):
+        raw = _raw_tables(path)
+        nb = len(raw["start"])
+        reads = [(None, None), (0, 1), (nb // 2, nb), (1, nb - 1), (-2, None)]
+        exp = _expect_all(raw, reads)
+        for who, obj in ([("same object", clr)] if clr is not None else []) + ([("new object", cooler.Cooler(path))] if fresh else []):
+            case = {"history": history, "after": step, "reader": who}
+            ctx.case(case, kind="history")
+            try:
+                got = _read_all(obj, reads)
+            except Exception as e:
+                ctx.fail(case, {"error": repr(e)}, None)
+                continue
+            bad = [k for k in exp if got.get(k) != exp[k]]
+            if got["chroms"][0] != raw["names"]:
+                bad.append("chroms")
+            if raw["weight"] is not None and got.get("weight") != [None if np.isnan(v) else float(v) for v in raw["weight"]]:
+                bad.append("weight")
+            if bad:
+                k = bad[0]
+                ctx.fail(case, {"read": k, "got": str(got.get(k))[:300], "stored": str(exp.get(k, raw["names"]))[:300], "all_wrong": bad}, None)
+
+    scenarios = [
+        ("rename-all", ["chrA", "b", "chr10"], [3, 2, 3], [("rename", {"chrA": "one", "b": "two", "chr10": "three"})]),
+        ("rename-one", ["chrA", "b", "chr10"], [2, 3, 1], [("rename", {"b": "B_long_name"})]),
+        ("rename-swap", ["chrA", "b"], [3, 3], [("rename", {"chrA": "b", "b": "chrA"})]),
+        ("rename-twice", ["x", "y", "z"], [1, 2, 3], [("rename", {"x": "x1"}), ("rename", {"x1": "x2", "z": "x"})]),
+        ("overwrite-same-nbins", ["chrA", "b", "chr10"], [3, 2, 3], [("create", ["p", "q"], [4, 4], 5)]),
+        ("overwrite-reordered", ["chrA", "b", "chr10"], [2, 2, 2], [("create", ["chr10", "chrA", "b"], [2, 2, 2], 6)]),
+        ("overwrite-fewer-bins", ["chrA", "b"], [4, 4], [("create", ["b"], [3], 7), ("create", ["chrA", "b", "c", "d"], [1, 1, 1, 1], 8)]),
+        ("int-coded-then-rename", ["chrA", "b", "c"], [2, 3, 2], [("intcode", None), ("rename", {"b": "bb", "c": "chrA2"}), ("create", ["q", "r"], [3, 4], 9)]),
+        ("balance-then-read", ["chrA", "b"], [4, 3], [("weight", None), ("rename", {"chrA": "zz"}), ("weight", None)]),
+    ]
+    for tag, names, nper, steps in scenarios:
+        make(names, nper, rng.randint(0, 10 ** 6))
+        clr = cooler.Cooler(path)
+        history = [f"create {names} {nper}"]
+        check("create", list(history), clr)
+        for st in steps:
+            if st[0] == "rename":
+                cooler.rename_chroms(clr, st[1])
+                history.append(f"rename_chroms {st[1]}")
+                check(history[-1], list(history), clr)
+            elif st[0] == "create":
+                make(st[1], st[2], st[3])
+                history.append(f"overwrite with create_cooler {st[1]} {st[2]}")
+                clr = cooler.Cooler(path)
+                check(history[-1], list(history), clr, fresh=False)
+            elif st[0] == "intcode":
+                import h5py
+                with h5py.File(path, "r+") as f:
+                    codes = f["bins/chrom"][:].astype(np.int32)
+                    del f["bins/chrom"]
+                    f["bins"].create_dataset("chrom", data=codes)
+                history.append("bins/chrom re-stored as plain int32 ids (no enum header)")
+                check(history[-1], list(history), clr)
+            elif st[0] == "weight":
+                import h5py
+                nb = clr.info["nbins"]
+                w = np.array([rng.choice([0.5, 1.0, 2.0, np.nan]) for _ in range(nb)])
+                with h5py.File(path, "r+") as f:
+                    if "weight" in f["bins"]:
+                        del f["bins/weight"]
+                    f["bins"].create_dataset("weight", data=w)
+                history.append("bins/weight column (re)written")
+                check(history[-1], list(history), clr)
+    if os.path.exists(path):
+        os.unlink(path)
 
 
 def run(ctx):
@@ -302,6 +437,7 @@ def run(ctx):
                             [f"decode_chrom {C.zl(range(len(raw['chroms']['name'])))} {C.zl(raw['bins']['chrom'])}"], tmpdir=ctx.tmp / "dec")[0]
             ctx.compare("decode_chrom", case, [raw["chroms"]["name"].index(g) for g in got], list(mo))
         os.unlink(path)
+    run_history(ctx)
     # regression corpus: D12 (empty pixel selection against a partial bin table)
     ctx.exhaustive = True
 
